@@ -485,10 +485,12 @@ impl<'c> Local<'c> {
     /// Evaluate one case. Ok(()) = held (or a known finding); Err = new violation.
     pub fn eval(&mut self, sub: &Sub, case: &[u8]) -> Result<(), Fail> {
         let mut obs = Obs::default();
+        crate::crash::set_current(sub.name, case);
         let r = match catch(|| (sub.oracle)(case, &mut obs)) {
             Ok(r) => r,
             Err(p) => Err(Fail::new(format!("{}/panic", sub.name), format!("panicked: {p}"))),
         };
+        crate::crash::clear_current();
         if self.counting {
             self.evals += 1;
             let any_nt = obs.nontrivial || !obs.extra_nontrivial.is_empty();
